@@ -406,6 +406,25 @@ class FuncAccess(MustFlow):
                 if isinstance(t, ast.Subscript):
                     self._emit(node, 'del', t.value, state)
         for n in walk_no_nested(node):
+            if isinstance(n, ast.Call):
+                # library calls that are told to work in place on one of their arguments
+                for kw in n.keywords:
+                    if kw.arg and kw.arg.startswith('overwrite_') and \
+                            isinstance(kw.value, ast.Constant) and kw.value.value is True:
+                        pos = {'overwrite_a': 0, 'overwrite_b': 1, 'overwrite_x': 0,
+                               'overwrite_ab': 0, 'overwrite_input': 0}.get(kw.arg, 0)
+                        if len(n.args) > pos:
+                            self._emit(n, 'call:' + kw.arg, n.args[pos], state)
+                    elif kw.arg == 'out' and not (isinstance(kw.value, ast.Constant) and kw.value.value is None):
+                        self._emit(n, 'call:out=', kw.value, state)
+                    elif kw.arg == 'inplace' and isinstance(kw.value, ast.Constant) and kw.value.value is True \
+                            and isinstance(n.func, ast.Attribute):
+                        self._emit(n, 'call:inplace', n.func.value, state)
+                    elif kw.arg == 'copy' and isinstance(kw.value, ast.Constant) and kw.value.value is False:
+                        pass      # aliasing, not an edit: handled by the origin analysis of the result
+                if call_name(n) in ('np.copyto', 'np.put', 'np.place', 'np.putmask', 'np.fill_diagonal',
+                                    'numpy.copyto') and n.args:
+                    self._emit(n, 'call:' + call_name(n), n.args[0], state)
             if isinstance(n, ast.Call) and isinstance(n.func, ast.Attribute) \
                     and n.func.attr in MUTATORS:
                 cn = call_name(n)
